@@ -20,6 +20,13 @@ ACCEPTED_ALARMS = {
     'C17-r6-image-query-table-z-uses-width-y': 'C06.R1/C17.R2-R4: wrapped search restructured around a table of shifted query points and an image index instead of a shift vector',
     'C18-r6-deferred-exact-pass-stale-index-after-swap': 'C18.R3/C05.R3: two-pass partition (float pass, deferred exact pass over remembered indices)',
     'C18-r6-deferred-exact-pass-stale-index-after-swap.alt-same-storage-order': 'C18.R3/C05.R3: exact pass before the partition loop driven by stored clip values',
+    # benign6 = correct twins of the round-7 seeded refactorings
+    'C07-r7-chunked-build-skip-test-uses-chunk-length': 'cells built in chunks of 256 (par_chunks_mut, nested per-chunk / per-cell closures): the route scenario expects one per-cell closure',
+    'C09-r7-finalize-parallel-fill-with-atomic-cursors': 'C12.R1/R2 + C09.R2/R3: counting-sort layout of finalize filled in parallel through atomic cursors and sorted afterwards (deterministic, but atomics are reported by rule)',
+    'C09-r7-finalize-parallel-fill-with-atomic-cursors.variant-sequential-fill': 'C12.R1/R2: counting-sort layout of finalize',
+    'C14-r7-with-faces-fast-path-inits-by-face-position': 'second route through compute_face_integrals for cells with stored faces: equivalence with the decomposition route is not established',
+    'C16-r7-running-maximum-misses-exact-path-survivors': 'C16.R2: safety radius kept as a running maximum inside the clip loop instead of the recomputation pass',
+    'C18-r7-cycle-membership-bitmask-u64': 'C18.R1/R4: cycle membership in a separate Vec<bool> (layout of SimpleCycle changed)',
 }
 
 
@@ -29,7 +36,7 @@ def corpus():
     if os.path.exists(p):
         out.extend(json.load(open(p)))
     # refactorings written by independent sub-agents (DESIGN §14); ACCEPTED_ALARMS are documented weak spots of the analysis, not of the code
-    for d in ('benign2', 'benign3', 'benign4', 'benign5'):
+    for d in ('benign2', 'benign3', 'benign4', 'benign5', 'benign6'):
         bd = os.path.join(V, 'selftest', d)
         if os.path.isdir(bd):
             for n in sorted(os.listdir(bd)):
